@@ -36,7 +36,15 @@ def strings_for(tier):
     for n in range(1, maxlen + 1):
         for tup in itertools.product(ALPHABET, repeat=n):
             out.append("".join(tup))
+    # the sequences XML itself gives a meaning to, as units of the alphabet: alone and next to every symbol
+    for w in XML_WORDS:
+        out.append(w)
+        for ch in ALPHABET:
+            out += [w + ch, ch + w]
     return out
+
+
+XML_WORDS = ["]]>", "<!--", "-->", "<?x?>", "&amp;", "&#10;", "&#x0;", "<![CDATA[", "</string>", "<a b='c'/>"]
 
 
 # ---- sinks: (name, kind, build(strings) -> source, extract(root) -> [(value, extra)])
@@ -319,7 +327,8 @@ CLI_OPS = ["run-all", "run-first-two", "run-last-two", "edit-1", "edit-2", "edit
 
 def cli_source(k, rev):
     # the number of extra labels cycles 0, 1, 2, 0, ... with the revision: an edit makes the outputs longer or shorter
-    extra = "".join("    QLabel { text: \"extra %d\" }\n" % i for i in range(rev % 3))
+    # ... except for the second source, whose edits change one digit only: outputs of the same length with another content
+    extra = "".join("    QLabel { text: \"extra %d\" }\n" % i for i in range(rev % 3 if k != 1 else 1))
     return ("import qmluic.QtWidgets\nQWidget {\n    windowTitle: \"doc %d <&> rev %d\"\n"
             "    QCheckBox { id: cb }\n    QLabel { text: \"a\\r\\n'b' %d\"; visible: cb.checked }\n%s}\n" % (k, rev, k, extra))
 
